@@ -57,6 +57,29 @@ def run(ctx, ask=None):
         ctx.case(("sizes", cfg["name"], cfg["seed"], cfg["size"]), len(steps) >= 3,
                  {"algorithm": cfg["name"], "configured": {k: list(v) for k, v in exp.items()}, "observed_per_step": [e[3] for e in steps[:4]]}
                  if len(ctx.samples) < 5 and cfg["name"] in ("IBEA", "GA", "SMPSO") else None)
+    # ---- adaptive time continuation: restarts change `population_size`; after every iteration of the run loop the population
+    # must have exactly that many members (Model/Restart.lean / Props/C08Restart.lean: rStep_inv), replayed through `erun`
+    import random as _rnd
+    rrng = _rnd.Random(ctx.seed * 7919 + 14)
+    for cfg in runs.gen_configs(rrng, 10 if ctx.quick() else 120, names=["NSGAII+restarts"], sizes=(5, 6, 8, 11)):
+        budget = cfg["size"] * rrng.choice([8, 12, 20])
+        tr, alg, err = runs.execute(cfg, [budget], collect_steps=True)
+        inp = runs.describe(cfg, budget=budget)
+        if err is not None:
+            runs.note_aborted(ctx, cfg, err)
+            continue
+        segs = runs.segments(tr)
+        if ask is not None:
+            runs.genstep_replay(ctx, ask, alg, segs, inp)
+        sts = [st for sg in segs for st in sg["steps"]]
+        for si, st in enumerate(sts):
+            if st["population_size"] != st["population_size_attr"]:
+                ctx.fail("size-contract-broken", dict(inp, step=si, collection="population", population_per_step=[x["population_size"] for x in sts][:40],
+                                                      population_size_attribute_per_step=[x["population_size_attr"] for x in sts][:40]),
+                         st["population_size"], f"== population_size ({st['population_size_attr']})", "algorithms.NSGAII + extensions.AdaptiveTimeContinuationExtension")
+                break
+        ctx.count("size_runs_with_forced_restarts")
+        ctx.case(("sizes", cfg["name"], cfg["seed"], cfg["size"]), len(sts) >= 3, None)
     # ---- variators that return fewer offspring than they take parents (PCX / UNDX / SPX: 10 -> 2, differential evolution: 4 -> 1):
     # the offspring loop has to keep mating until it has enough; sizes are checked after every step
     import random as _random
